@@ -87,9 +87,13 @@ def r3_boundary(ctx, F, cb):
     ctx.check(wv == sv, rule, 'boundary-of-successor', b,
               good='within_boundary is asked about the successor state',
               bad='%s: within_boundary is evaluated on %r, not on the successor %r' % (cb.strat, wv, sv))
+    from taint import origin_vals
     for e in cb.enq:
         v = b.val(e.args[1])
         ok = v.kind == 'agg' and v.key[3] and noref(v.key[3][0]) == sv
+        if not ok and e.args[1].get('k') in ('copy', 'move'):
+            # the successor may have passed through a `filter(..)` / `Some(..)` join on its way here
+            ok = origin_vals(b, e.args[1], extra=[{'f': 0}]) == {sv}
         ctx.check(ok, rule, 'enqueue-the-successor', b,
                   good='the enqueued state is the successor that was tested',
                   bad='%s: enqueued state is %r, not the successor %r' %
